@@ -13,6 +13,7 @@ import (
 )
 
 type specEnv struct {
+	inQuant bool // evaluating under a quantifier: no side assumptions may be emitted
 	fc       *fnCtx
 	fr       *frame
 	vars     map[string]TV
@@ -204,6 +205,7 @@ func (env *specEnv) eval(e SExpr) TV {
 		}
 		sub := *env
 		sub.vars = copyVars(env.vars)
+		sub.inQuant = true
 		var decls []string
 		for _, v := range x.Vars {
 			n := env.fc.sc.fresh("q_" + v)
@@ -351,7 +353,29 @@ func (env *specEnv) evalBinary(x *SBinary) TV {
 			if s, ok := env.litString(x.R); ok {
 				bl = &s
 			}
-			t = env.fc.strEq(l.T, r.T, al, bl)
+			if env.inQuant && al == nil && bl == nil {
+				// under a binder no side facts can be emitted: canonical-key equality only
+				t = fmt.Sprintf("(streq %s %s)", l.T, r.T)
+			} else if env.inQuant {
+				lit, other := al, r.T
+				if al == nil {
+					lit, other = bl, l.T
+				}
+				parts := []string{fmt.Sprintf("(= (slen %s) %d)", other, len(*lit))}
+				for i := 0; i < len(*lit); i++ {
+					parts = append(parts, fmt.Sprintf("(= (sat %s %d) %d)", other, i, (*lit)[i]))
+				}
+				if al != nil && bl != nil {
+					if *al == *bl {
+						parts = []string{"true"}
+					} else {
+						parts = []string{"false"}
+					}
+				}
+				t = and(parts...)
+			} else {
+				t = env.fc.strEq(l.T, r.T, al, bl)
+			}
 		case l.Sort == "Slice" && r.T == "nilslice":
 			t = fmt.Sprintf("(= (sref %s) 0)", l.T)
 		case l.Sort == "Val" && r.T == "nilval":
